@@ -253,7 +253,7 @@ func solve(P *Prog, o *Obligation, timeoutMs int, all bool) *Result {
 	// (most obligations are discharged in milliseconds, so the later stages rarely start)
 	stage := func(jb job) int {
 		switch {
-		case jb.variant == 0 && jb.sd.name == "z3-new", jb.variant == 2 && jb.sd.name != "cvc5", jb.variant == 3 && jb.sd.name == "z3-new":
+		case jb.variant == 0 && jb.sd.name == "z3-new", jb.variant == 2 && jb.sd.name == "z3-new":
 			return 0
 		}
 		return 1
@@ -283,7 +283,7 @@ func solve(P *Prog, o *Obligation, timeoutMs int, all bool) *Result {
 			pending0++
 			launch(jb, 0)
 		} else {
-			launch(jb, 2*time.Second)
+			launch(jb, 300*time.Millisecond)
 		}
 	}
 	res := &Result{Verdict: "unknown", Outputs: map[string]string{}}
